@@ -247,6 +247,12 @@ def nextRound (p t : Tick) : Tick := p + ((t - p + 63) / 64) * 64
 /-- `t` is a round of the killer's pausing loop started at `p`. -/
 def isRound (p t : Tick) : Bool := decide (p ≤ t) && decide ((t - p) % 64 = 0)
 
+/-- the operator is paused and `now` is one of the rounds of the killer's pausing loop -/
+def St.atRound (s : St) : Bool :=
+  match s.paused with
+  | some p => isRound p s.now
+  | none => false
+
 /-- The first round strictly after `t` (and not before `p`): the first sweep that surely lists a daemon that
     is in `running_daemons` since `t`. -/
 def firstDue (p t : Tick) : Tick := if t < p then p else p + ((t - p) / 64 + 1) * 64
@@ -301,7 +307,7 @@ def step (c : Cfg) (s : St) : Label → Option St
     | some i =>
       -- pausing: only in a round of the pausing loop; exiting: the exit sweep; never after the killer is gone
       if s.known && !s.killerDone &&
-          ((r == .pausing && (match s.paused with | some p => isRound p s.now | none => false)) || r == .exiting) then
+          ((r == .pausing && s.atRound) || r == .exiting) then
         some { s with run := some { i.set r s.now with kstarts := s.now :: i.kstarts } }
       else none
     | none => none
